@@ -392,6 +392,92 @@ fn f32_range_hits(pairs: impl Iterator<Item = (PointF, PointF)>) -> usize {
         .count()
 }
 
+/// `rect` request: integer point sets whose hull edges all have integer length (axis-aligned and
+/// Pythagorean directions), so that the sqrt-free Lean model of `min_area_rect` can rebuild every
+/// candidate rect exactly; the corners the real code returns are shipped in units of 1/1000.
+fn rect_exact_case(out: &mut Out, rng: &mut Rng) {
+    const DIRS: [(i64, i64); 8] = [(1, 0), (0, 1), (3, 4), (4, 3), (5, 12), (12, 5), (8, 15), (15, 8)];
+    let pick_dir = |rng: &mut Rng| {
+        let d = *rng.pick(&DIRS);
+        let (sx, sy) = (if rng.chance(1, 2) { 1 } else { -1 }, if rng.chance(1, 2) { 1 } else { -1 });
+        (d.0 * sx, d.1 * sy)
+    };
+    let o = (rng.range_i64(-20, 20), rng.range_i64(-20, 20));
+    let kind = rng.below(5);
+    let mut pts: Vec<IPt> = Vec::new();
+    let gen;
+    match kind {
+        0 => {
+            gen = "rotated_rect";
+            let u = pick_dir(rng);
+            let v = (-u.1, u.0);
+            let (a, b) = (rng.range_i64(1, 4), rng.range_i64(1, 4));
+            for i in 0..=a {
+                for j in 0..=b {
+                    if (i == 0 || i == a) && (j == 0 || j == b) || rng.chance(1, 3) {
+                        pts.push((o.0 + i * u.0 + j * v.0, o.1 + i * u.1 + j * v.1));
+                    }
+                }
+            }
+        }
+        1 => {
+            gen = "parallelogram";
+            let (u, mut v) = (pick_dir(rng), pick_dir(rng));
+            if u.0 * v.1 - u.1 * v.0 == 0 {
+                v = (-u.1, u.0);
+            }
+            let (a, b) = (rng.range_i64(1, 3), rng.range_i64(1, 3));
+            pts = vec![o, (o.0 + a * u.0, o.1 + a * u.1), (o.0 + a * u.0 + b * v.0, o.1 + a * u.1 + b * v.1), (o.0 + b * v.0, o.1 + b * v.1)];
+            if rng.chance(1, 2) && (a * u.0 + b * v.0) % 2 == 0 && (a * u.1 + b * v.1) % 2 == 0 {
+                // an interior point: the exact centre
+                pts.push((o.0 + (a * u.0 + b * v.0) / 2, o.1 + (a * u.1 + b * v.1) / 2));
+            }
+        }
+        2 => {
+            gen = "right_triangle";
+            let u = pick_dir(rng);
+            let v = (-u.1, u.0);
+            let k = rng.range_i64(1, 2);
+            pts = vec![o, (o.0 + 3 * k * u.0, o.1 + 3 * k * u.1), (o.0 + 4 * k * v.0, o.1 + 4 * k * v.1)];
+        }
+        3 => {
+            gen = "octagon";
+            let steps: [(i64, i64); 8] = [(4, 3), (3, 4), (-3, 4), (-4, 3), (-4, -3), (-3, -4), (3, -4), (4, -3)];
+            let k = rng.range_i64(1, 3);
+            let mut p = o;
+            let skip = rng.usize_below(9); // optionally merge two steps into one? no: drop none/one vertex later
+            for (i, st) in steps.iter().enumerate() {
+                pts.push(p);
+                p = (p.0 + k * st.0, p.1 + k * st.1);
+                let _ = (i, skip);
+            }
+        }
+        _ => {
+            gen = "segment_or_point";
+            let u = pick_dir(rng);
+            let a = rng.range_i64(0, 4);
+            pts = vec![o, (o.0 + a * u.0, o.1 + a * u.1)];
+            if rng.chance(1, 2) {
+                pts.push((o.0 + (a / 2) * u.0, o.1 + (a / 2) * u.1));
+            }
+        }
+    }
+    rng.shuffle(&mut pts);
+    let fpts: Vec<PointF> = pts.iter().map(|&p| to_pf(p, 0)).collect();
+    let res = hcommon::catch(|| min_area_rect(&fpts).map(|r| r.corners()));
+    let (corners_w, ans) = match res {
+        Ok(Some(cs)) => (
+            hcommon::join(cs.iter().map(|c| format!("{},{}", (c.x as f64 * 1000.0).round() as i64, (c.y as f64 * 1000.0).round() as i64)), ";"),
+            "match".to_string(),
+        ),
+        Ok(None) => ("-".to_string(), "none".to_string()),
+        Err(m) => ("-".to_string(), format!("panic {m}")),
+    };
+    let req = format!("rect {} {}", fmt_pts(&pts), corners_w);
+    out.bucket(&format!("rectx_gen_{gen}"));
+    out.case(&req, &ans, None, pts.len() >= 3);
+}
+
 // ---------------------------------------------------------------- simplification
 
 fn gen_eps(rng: &mut Rng) -> f32 {
@@ -703,6 +789,9 @@ fn run(args: &Args) {
                 dp_case(&mut out, &pts, closed, eps, s, gen);
             }
         }
+    }
+    for _ in 0..3_000 * mult {
+        rect_exact_case(&mut out, &mut rng);
     }
     for _ in 0..3_000 * mult {
         special_case(&mut out, &mut rng);
